@@ -499,13 +499,76 @@ func (r *Region) MustPassUp(pt eng.Point, q func(ssa.Instruction) bool) (bool, s
 	return from(pt)
 }
 
-// BeforeDeep: on every path from the root's entry, an instruction matching qa executes before any instruction matching qb
-// can execute (both lifted through helpers; ordering inside a common helper is checked inside that helper).
+// BeforeDeep: no interprocedural path from the root's entry reaches an instruction matching qb without first executing an
+// instruction matching qa. Helper calls inside the region are entered: a helper may itself violate the order, and it
+// establishes "a done" for its caller only if every path through it executes a.
 func (r *Region) BeforeDeep(qa, qb func(ssa.Instruction) bool) (bool, ssa.Instruction) {
-	mayB := r.May(qb)
-	la := r.Must(qa, mayB)
-	stop := func(ins ssa.Instruction) bool { return !la(ins) && mayB(ins) }
-	return eng.MustPassBefore(eng.Point{B: r.Root.Blocks[0]}, la, stop)
+	mustA := r.Must(qa, nil)
+	viol := map[*ssa.Function]int{} // 1 = violates, 2 = ok, 3 = in progress
+	var bad ssa.Instruction
+	var violates func(f *ssa.Function) bool
+	explore := func(pt eng.Point) bool {
+		found := false
+		seen := map[*ssa.BasicBlock]bool{}
+		var walkBlock func(b *ssa.BasicBlock, from int)
+		walkBlock = func(b *ssa.BasicBlock, from int) {
+			if found {
+				return
+			}
+			for i := from; i < len(b.Instrs); i++ {
+				ins := b.Instrs[i]
+				if qa(ins) {
+					return
+				}
+				if qb(ins) {
+					found = true
+					if bad == nil {
+						bad = ins
+					}
+					return
+				}
+				if cl, ok := ins.(*ssa.Call); ok {
+					for _, h := range repoCallees(r.c, cl) {
+						if r.In[h] && h != r.Root {
+							if violates(h) {
+								found = true
+								return
+							}
+						}
+					}
+					if mustA(ins) {
+						return
+					}
+				}
+			}
+			for _, s := range b.Succs {
+				if !seen[s] {
+					seen[s] = true
+					walkBlock(s, 0)
+				}
+			}
+		}
+		walkBlock(pt.B, pt.Idx)
+		return found
+	}
+	violates = func(f *ssa.Function) bool {
+		switch viol[f] {
+		case 1:
+			return true
+		case 2, 3:
+			return false
+		}
+		viol[f] = 3
+		v := explore(eng.Point{B: f.Blocks[0]})
+		if v {
+			viol[f] = 1
+		} else {
+			viol[f] = 2
+		}
+		return v
+	}
+	v := violates(r.Root)
+	return !v, bad
 }
 
 // May lifts q through helper calls that stay inside the region.
